@@ -1,7 +1,7 @@
 (* C12 - Version and msize negotiation is honoured in both directions.
    Property theorems only (each closed by [exact] of a lemma proved elsewhere, followed by Print Assumptions). *)
 From Coq Require Import NArith ZArith List Bool.
-From V9 Require Shape.ShapeLib Shape.PVersion.
+From V9 Require Shape.ShapeLib Shape.PVersion Shape.PRecv.
 From V9 Require Import Lib.GoSem Lib.Bytes Gen.Consts Codec.Msg Srv.Seq Srv.SeqSpec Srv.SeqProofs Recv.Recv Recv.RecvProofs.
 From V9 Require Import Clnt.IO Clnt.Version Clnt.VersionProofs.
 Import ListNotations.
@@ -94,3 +94,8 @@ Print Assumptions C12_client_frames_fit.
 Theorem C12_source_version_negotiation : ShapeLib.version_negotiation = true.
 Proof. exact PVersion.version_negotiation_ok. Qed.
 Print Assumptions C12_source_version_negotiation.
+
+(* the announced size of every frame is compared with the negotiated msize in both receive loops *)
+Theorem C12_source_size_checked_against_msize : V9.Shape.ShapeLib.size_checked_against_msize = true.
+Proof. exact V9.Shape.PRecv.size_checked_against_msize_ok. Qed.
+Print Assumptions C12_source_size_checked_against_msize.
